@@ -7,5 +7,5 @@ CONSTANTS Alpha = {48,49,50,55,56,57,46,101,69,43,45,120}
  MaxFracP = 2
  Variant = "ok"
  EmitPaths = FALSE
-INVARIANTS Refines MemSafe Terminates EmitPath
+INVARIANTS MacroAgrees Refines MemSafe Terminates EmitPath
 CHECK_DEADLOCK FALSE
